@@ -1826,15 +1826,21 @@ def _getitem_batch_size(batch_size, index):
             if idx.dtype == torch.bool:
                 shape = torch.Size([idx.sum()])
                 boolean = True
+            elif idx.ndim == 0:
+                # a 0-dim integer tensor selects like an int
+                shape = None
             else:
                 shape = idx.shape
         elif isinstance(idx, np.ndarray):
             if idx.dtype == np.dtype("bool"):
-                shape = torch.Size([idx.sum()])
+                shape = torch.Size([int(idx.sum())])
                 boolean = True
+            elif idx.ndim == 0:
+                shape = None
             else:
                 shape = idx.shape
-        elif isinstance(idx, slice):
+        elif isinstance(idx, slice) or idx is None:
+            # slices and None separate advanced indices
             look_for_disjoint = not disjoint and (len(shapes_dict) > 0)
             shape = None
         else:
